@@ -1485,7 +1485,7 @@ func (m *Machine) rangeStart(fr *frame, x *ssa.Range) Value {
 		order := make([]MapEntry, len(es))
 		copy(order, es)
 		// Go's map iteration order is unspecified: make it a solver-visible choice when requested
-		if m.stubs["maporder"] == "symbolic" && len(order) > 1 {
+		if m.stubs["maporder"] == "symbolic" && len(order) > 1 && !m.initing {
 			order = m.permute(order)
 		}
 		return &IterV{Entries: order}
